@@ -118,6 +118,16 @@ def corpus():
         "@a{k, f = b}\n@string{b = a}\n@string{a = 12}",
     ]
     out = [dict(base, t=t) for t in texts]
+    # documents that are well formed BY CONSTRUCTION (keys different as written - also ones equal up to case; an empty
+    # @comment between two free-text comments; empty values; blanks before the brace): if the parsed library is not
+    # re-printable, parsing (or a middleware of the default stack) changed them
+    for t in ("% group bibliography\n\n@string{lncs = \"LNCS\"}\n\n@article{Knuth84,\n a = \"x\",\n y = 1984\n}\n\n@book{knuth84,\n a = {y},\n s = lncs,\n}\n"
+              "\n@string{LNCS = {other}}\n\n@string{S = {1}}\n\n@string{s = {2}}\n",
+              "text one\n\n@comment{}\n\ntext two\n\n@a{k, f = {v}}\n\n@comment{ }\n\ntext three",
+              "@a{k1, f = {}}\n@comment{}\n@preamble{}\n@string{e = {}}\n@a{k2,}",
+              "@Article {K, F = {v}}\n@STRING {k = {w}}\n@a{k, f = k}"):
+        for f in (base, {"indent": "", "col": "auto", "sep": "", "tc": True}):
+            out.append(dict(f, t=t, wfsrc=True))
     out.append({"t": texts[1], "indent": "    ", "col": "auto", "sep": " \n", "tc": True})
     out.append({"t": texts[2], "indent": "", "col": 17, "sep": "", "tc": True})
     # the non-vacuity example of Props/C05.lean (exLib written with exFormat) and its edge shapes:
@@ -380,6 +390,9 @@ def content(blocks):
 def oracle(case):
     lib1, sig1, t1, lib2, sig2, t2 = _rt(case)
     if not wf5(case, lib1):
+        if case.get("wfsrc"):
+            return ("the document is well formed by construction, but the library parsed from it is not one the property speaks "
+                    "about (a failed block, adjacent free-text comments, ...): blocks %r" % [type(b).__name__ for b in lib1.blocks])
         if case.get("flat"):
             # a hand-built document with flat enclosed values: whether it is well formed is read off the SOURCE. If every
             # source value can be written between braces again but the parsed library cannot, parsing changed a value
